@@ -133,6 +133,8 @@ def main():
     ap.add_argument("--runs")
     ap.add_argument("--suite", action="store_true")
     ap.add_argument("--seeded", action="store_true", help="also run seeded/<id>/patch.diff")
+    ap.add_argument("--benign", action="store_true",
+                    help="also run benign/<id>/patch.diff (property-preserving redesigns) under every check, expecting 0")
     args = ap.parse_args()
     base = tempfile.mkdtemp(prefix="mutants-", dir="/tmp")
     tree = os.path.join(base, "tree")
@@ -147,6 +149,11 @@ def main():
                 meta = json.load(open(os.path.join(sd, sid, "meta.json")))
                 jobs.append(("seeded_" + sid, meta.get("check_with", meta["breaks_property"]), 1,
                              ("patch", os.path.join(sd, sid, "patch.diff"))))
+        if args.benign:
+            bd = os.path.join(VERIF, "benign")
+            for bid in sorted(os.listdir(bd)):
+                for check in ("C18", "C17", "C11", "C01"):
+                    jobs.append(("benign_%s_%s" % (bid, check), check, 0, ("patch", os.path.join(bd, bid, "patch.diff"))))
         for name, check, expect, (kind, payload) in jobs:
             if args.only and args.only not in name:
                 continue
